@@ -219,7 +219,7 @@ Qed.
 Theorem C16_transport_errors_checked :
   forallb (fun f => guarded (f_body f))
     [rcon_ReadPacket; rcon_WritePacket; rcon_Cmd; rcon_Resp; rcon_AcceptLogin; rcon_AcceptCmd; rcon_RespCmd;
-     rcon_DialRCON] = true.
+     rcon_DialRCON; rcon_ListenRCON; rcon_Accept] = true.
 Proof. exact transport_errors_checked. Qed.
 
 (* ---- the model's functions ARE the interpretation of the translated bodies.
@@ -375,3 +375,38 @@ Print Assumptions C16_exchange_any_id.
 Print Assumptions C16_request_id_wraps.
 Print Assumptions C16_connections_isolated.
 Print Assumptions C16_connections_sessions.
+
+
+(* ======================================================================================================
+   Phase 2: ListenRCON / Accept as structured skeletons with their own interpretation *)
+From Coq Require Import String.   (* for the string literals below only; List.length is not used from here on *)
+(* the struct RCONListener is what was modelled (RCONConn's field list is in C16_skeletons_from_source);
+   tools/gotrans/c16.go refuses any other struct type, any package-level variable declared in net/rcon.go
+   and any use of a package-level variable inside a translated body *)
+Theorem C16_listener_fields_from_source : rcon_listener_fields = expected_listener_fields.
+Proof. exact listener_fields_ok. Qed.
+(* (RCONListener).Accept, interpreted: an RCONConn around exactly the accepted net.Conn (handle h) with
+   ReqID 0 - for every handle; ListenRCON: an RCONListener around exactly the net.Listener *)
+Theorem C16_Accept_translated : forall h,
+  sem_ctor rcon_Accept h = Some ("RCONConn"%string, [("Conn"%string, FHandle h); ("ReqID"%string, FInt zero_reqid)]).
+Proof. exact sem_Accept_is_model. Qed.
+Theorem C16_ListenRCON_translated : forall h,
+  sem_ctor rcon_ListenRCON h = Some ("RCONListener"%string, [("Listener"%string, FHandle h)]).
+Proof. exact sem_ListenRCON_is_model. Qed.
+(* as a connection of the model: the `accepted` state; two Accept calls give two different records *)
+Theorem C16_accepted_connection : forall h, accept_conn h = Some (h, accepted).
+Proof. exact accept_conn_is_model. Qed.
+Theorem C16_accepted_own_record : forall h1 h2, h1 <> h2 -> accept_conn h1 <> accept_conn h2.
+Proof. exact accept_conn_own_record. Qed.
+(* isolation, from the records the translated Accept builds: connection i of a listener (i-th Accept, client
+   request id id) shows the run of its own events from the accepted state, whatever the others do *)
+Theorem C16_accepted_connections_isolated : forall hids evs i h id, nth_error hids i = Some (h, id) ->
+  proj_obs i (run_multi evs (map accepted_mc hids)) = fst (run_session id (proj i evs) accepted).
+Proof. exact accepted_isolated. Qed.
+
+Print Assumptions C16_listener_fields_from_source.
+Print Assumptions C16_Accept_translated.
+Print Assumptions C16_ListenRCON_translated.
+Print Assumptions C16_accepted_connection.
+Print Assumptions C16_accepted_own_record.
+Print Assumptions C16_accepted_connections_isolated.
